@@ -3,7 +3,7 @@
 import json, os, shutil, sys
 pid, verdict, note = sys.argv[1], sys.argv[2], sys.argv[3]
 rnd = sys.argv[4] if len(sys.argv) > 4 else 'seed'
-src, dst = '/tmp/%s_%s' % (rnd, pid), '/verif/seeded/' + pid + ('' if rnd == 'seed' else '-2')
+src, dst = '/tmp/%s_%s' % (rnd, pid), '/verif/seeded/' + pid + ('' if rnd == 'seed' else '-' + rnd[4:])
 os.makedirs(dst, exist_ok=True)
 for f in ('patch.diff', 'demo.py'):
     shutil.copy(os.path.join(src, f), os.path.join(dst, f))
@@ -12,7 +12,7 @@ meta['property'] = pid
 meta['origin'] = 'written by an independent sub-agent that saw only the property text and its own scratch worktree'
 meta['confirmed'] = ('demo exits 0 on the clean tree and 1 with the patch; repository test-suite (2830 pinned tests) passes with the patch '
                      '(tools/verify_seed.sh %s)' % pid)
-meta['round'] = 1 if rnd == 'seed' else 2
+meta['round'] = 1 if rnd == 'seed' else int(rnd[4:])
 meta['detected_by'] = verdict
 meta['what_i_ran'] = note
 for k in ('check_quick.out', 'check_thorough.out'):
